@@ -1,5 +1,169 @@
 import ZoektModel.Basic.Proto
+import ZoektModel.C04.Spec
 namespace ZoektModel.C04
-/-- stub: no model driver for C04 yet -/
-def main : IO Unit := ZoektModel.Proto.runLines (fun _ => ZoektModel.Proto.badCase "no model driver for C04")
+open ZoektModel ZoektModel.Proto
+
+def parseBits (s : String) : Option (List Bool) :=
+  if s == "-" then some [] else
+  s.toList.mapM fun c => if c == '1' then some true else if c == '0' then some false else none
+
+def showBits (l : List Bool) : String :=
+  if l.isEmpty then "-" else String.ofList (l.map fun b => if b then '1' else '0')
+
+/-- `key:ident:wantbits;…` -/
+def parseMetas (s : String) : Option (List (Atom × List Bool)) :=
+  if s == "-" then some [] else
+  (s.splitOn ";").mapM fun e =>
+    match e.splitOn ":" with
+    | [k, i, w] => do pure (⟨← k.toNat?, ← i.toNat?⟩, ← parseBits w)
+    | _ => none
+
+def parseLeaves (s : String) : Option (List (List Bool)) :=
+  if s == "-" then some [] else (s.splitOn ";").mapM parseBits
+
+def takeNat (cs : List Char) : Option (Nat × List Char) :=
+  let ds := cs.takeWhile Char.isDigit
+  if ds.isEmpty then none else (String.ofList ds).toNat?.map (·, cs.dropWhile Char.isDigit)
+
+def nest (f : Q → Q → Q) : List Q → Option Q
+  | [] => none
+  | [x] => some x
+  | x :: r => (nest f r).map (f x)
+
+mutual
+partial def parseQ (metas : Array Atom) (leaves : Array (List Bool)) : List Char → Option (Q × List Char)
+  | 'T' :: r => some (.all, r)
+  | 'F' :: r => some (.none, r)
+  | 'm' :: r => do
+    let (i, r) ← takeNat r
+    pure (.atom (← metas[i]?), r)
+  | 'l' :: r => do
+    let (i, r) ← takeNat r
+    pure (.leaf (← leaves[i]?), r)
+  | 'N' :: '(' :: r => do
+    let (q, r) ← parseQ metas leaves r
+    match r with
+    | ')' :: r => pure (.not q, r)
+    | _ => none
+  | 'A' :: '(' :: r => do
+    let (qs, r) ← parseQs metas leaves r
+    pure (← nest .and qs, r)
+  | 'O' :: '(' :: r => do
+    let (qs, r) ← parseQs metas leaves r
+    pure (← nest .or qs, r)
+  | _ => none
+partial def parseQs (metas : Array Atom) (leaves : Array (List Bool)) (cs : List Char) : Option (List Q × List Char) := do
+  let (q, r) ← parseQ metas leaves cs
+  match r with
+  | ',' :: r => do
+    let (qs, r) ← parseQs metas leaves r
+    pure (q :: qs, r)
+  | ')' :: r => pure ([q], r)
+  | _ => none
+end
+
+/-- every cache `Add e` can leave, over all eviction victims -/
+def addAll (cap : Nat) (c : Cache) (e : Entry) : List Cache :=
+  ((List.range (cap + 1)).map fun v => add cap c e v).eraseDups
+
+/-- `build` with the eviction victims left open: every (tree, cache) it can produce -/
+def buildAll (sh : Shard) (cap : Nat) : Q → Cache → List (MT × Cache)
+  | .atom a, c =>
+    let miss : List (MT × Cache) :=
+      let want := sh.wantOf a.ident
+      (addAll cap c ⟨a.key, a.ident, want⟩).map fun c' => (MT.doc (predOf sh want) Cursor.fresh, c')
+    match lookup c a.key with
+    | some e => if e.ident = a.ident then [(.doc (predOf sh e.want) Cursor.fresh, c)] else miss
+    | none => miss
+  | .leaf p, c => [(.doc p Cursor.fresh, c)]
+  | .all, c => [(.all Cursor.fresh, c)]
+  | .none, c => [(.none, c)]
+  | .and a b, c => (buildAll sh cap a c).flatMap fun ra => (buildAll sh cap b ra.2).map fun rb => (.and ra.1 rb.1, rb.2)
+  | .or a b, c => (buildAll sh cap a c).flatMap fun ra => (buildAll sh cap b ra.2).map fun rb => (.or ra.1 rb.1, rb.2)
+  | .not a, c => (buildAll sh cap a c).map fun ra => (.not ra.1, ra.2)
+
+def insertByKey (e : Entry) : Cache → Cache
+  | [] => [e]
+  | x :: r => if e.key ≤ x.key then e :: x :: r else x :: insertByKey e r
+
+/-- the cache as a set: entries ordered by key (there is at most one entry per key) -/
+def canon (c : Cache) : Cache := c.foldr insertByKey []
+
+def insertSorted (s : String) : List String → List String
+  | [] => [s]
+  | x :: r => if s < x then s :: x :: r else x :: insertSorted s r
+
+def sortStrings (l : List String) : List String := l.foldr insertSorted []
+
+/-- canonical text of a cache: sorted `key:docbits:firstDone:docID`, nodes in the model's cache are never iterated -/
+def renderCache (sh : Shard) (c : Cache) : String :=
+  if c.isEmpty then "-" else
+  ",".intercalate (sortStrings (c.map fun e => s!"{e.key}:{showBits (predOf sh e.want)}:0:0"))
+
+structure ImplSearch where
+  r : String
+  c : String
+  s : String
+
+def parseImplSearch (s : String) : Option ImplSearch :=
+  match s.splitOn ";" with
+  | [a, b, c] =>
+    if a.startsWith "r=" && b.startsWith "c=" && c.startsWith "s=" then
+      some ⟨(a.drop 2).toString, (b.drop 2).toString, (c.drop 2).toString⟩
+    else none
+  | _ => none
+
+/-- are all cursors in the observed cache text pristine? entries are `key:bits:fd:docid` -/
+def observedPristine (c : String) : Bool :=
+  if c == "-" then true else
+  (c.splitOn ",").all fun e =>
+    match e.splitOn ":" with
+    | [_, _, fd, d] => cursorPristine (fd != "0") (d.toNat?.getD 1)
+    | _ => false
+
+/-- `hist <cap> <numDocs> <docRepo> <metas> <leaves> <q1|q2|…>` with impl `r=…;c=…;s=…|…` -/
+def handle (line : String) : String :=
+  let (inp, impl) := splitCase line
+  match fields inp with
+  | ["hist", cap, n, dr, ms, ls, qs] =>
+    match cap.toNat?, n.toNat?, natList? dr, parseMetas ms, parseLeaves ls with
+    | some cap, some n, some docRepo, some metas, some leaves =>
+      if docRepo.length != n then badCase "numDocs" else
+      let wantTab := metas.toArray
+      let sh : Shard := { docRepo := docRepo, wantOf := fun i => (wantTab[i]?.map (·.2)).getD [] }
+      let atomTab := (metas.map (·.1)).toArray
+      let leafTab := leaves.toArray
+      let qstrs := qs.splitOn "|"
+      let impls := impl.splitOn "|"
+      if qstrs.length != impls.length then badCase "impl length" else
+      let step (st : Option (Cache × List String × List (List Nat) × List (List Nat) × Bool × Bool)) (p : String × String) :=
+        match st with
+        | none => none
+        | some (c, outs, hist, alone, pristine, ambiguous) =>
+          match parseQ atomTab leafTab p.1.toList, parseImplSearch p.2 with
+          | some (q, []), some im =>
+            let cands := buildAll sh cap q c
+            let first := cands.headD (MT.none, c)
+            let r := (runSearch n first.1).1
+            let matching := (cands.filter fun x => renderCache sh x.2 == im.c).map (fun x => canon x.2) |>.eraseDups
+            let (c', cstr) := match matching with
+              | [] => (first.2, "!" ++ renderCache sh first.2)
+              | m :: _ => (m, im.c)
+            let so := solo sh q
+            let out := s!"r={showNatList r};c={cstr};s={showNatList so}"
+            some (c', outs ++ [out], hist ++ [(natList? im.r).getD [n + 1]], alone ++ [(natList? im.s).getD [n + 2]],
+                  pristine && observedPristine im.c, ambiguous || matching.length > 1)
+          | _, _ => none
+      match (qstrs.zip impls).foldl step (some ([], [], [], [], true, false)) with
+      | none => badCase "query or impl syntax"
+      | some (_, outs, hist, alone, pristine, ambiguous) =>
+        let model := "|".intercalate outs
+        if ambiguous then badCase "ambiguous cache observation"
+        else if !(checkP hist alone) then specFail model "history-dependent"
+        else if !pristine then specFail model "cached-node-mutated"
+        else answer model
+    | _, _, _, _, _ => badCase "fields"
+  | _ => badCase "op"
+
+def main : IO Unit := runLines handle
 end ZoektModel.C04
